@@ -246,6 +246,53 @@ def Sketch.iterate (s : Sketch ρ) : Option (List (Int × Nat)) :=
   let r := itWalk s.compactors s.numRetained (itBegin s.compactors)
   if r.2 && r.1.all Option.isSome then some (r.1.filterMap id) else none
 
+/-! ### the iterator / rank check in the shape the CURRENT headers have (flags regenerated from the source: DSGen/Req.lean)
+
+The definitions above are the PINNED shapes (iterator that starts inside compactor 0; `rank < 0 || rank > 1` check).  The repaired
+shapes skip empty compactors in the constructor and in `operator++`, and reject unless `rank >= 0 && rank <= 1`.  The driver uses
+the flag-following variants below; the theorems about the pinned shapes stay as they are. -/
+
+/-- source-shape flags -/
+structure Flags where
+  iterSkipsEmpty : Bool
+  nanRankRejected : Bool
+  deriving Repr
+
+/-- number of leading empty compactors: `while (levels_it_ != levels_end_ && begin() == end()) ++levels_it_` -/
+def leadEmpty : List (Compactor ρ) → Nat
+  | [] => 0
+  | c :: t => if c.items.isEmpty then 1 + leadEmpty t else 0
+
+def itBeginF (fl : Flags) (cs : List (Compactor ρ)) : It :=
+  if fl.iterSkipsEmpty then { lvl := leadEmpty cs, pos := 0 } else itBegin cs
+
+def itNextF (fl : Flags) (cs : List (Compactor ρ)) (a : It) : It :=
+  if fl.iterSkipsEmpty then
+    (if a.pos + 1 = sizeAt cs a.lvl then { lvl := a.lvl + 1 + leadEmpty (cs.drop (a.lvl + 1)), pos := 0 } else { a with pos := a.pos + 1 })
+  else itNext cs a
+
+def itWalkF (fl : Flags) (cs : List (Compactor ρ)) : Nat → It → List (Option (Int × Nat)) × Bool
+  | 0, a => ([], itEq cs a (itEnd cs))
+  | fuel + 1, a =>
+    if itEq cs a (itEnd cs) then ([], true)
+    else
+      let r := itWalkF fl cs fuel (itNextF fl cs a)
+      (itDeref cs a :: r.1, r.2)
+
+def Sketch.iterateF (fl : Flags) (s : Sketch ρ) : Option (List (Int × Nat)) :=
+  let r := itWalkF fl s.compactors s.numRetained (itBeginF fl s.compactors)
+  if r.2 && r.1.all Option.isSome then some (r.1.filterMap id) else none
+
+/-- the range check of `get_quantile` on the rank: `true` = the query is answered -/
+def rankAccepted (fl : Flags) (rank : Float) : Bool :=
+  if fl.nanRankRejected then (rank >= 0.0 && rank <= 1.0) else !(rank < 0.0 || rank > 1.0)
+
+/-- `get_quantile(rank, inclusive)`: `none` = throws (empty sketch or rejected rank) -/
+def Sketch.getQuantileF (fl : Flags) (s : Sketch ρ) (rank : Float) (inclusive : Bool) : Option (Option Int) :=
+  if s.n = 0 then none
+  else if !(rankAccepted fl rank) then none
+  else some (SortedView.getQuantile s.sortedView rank inclusive)
+
 /-! ### weight below `y` (the quantity of C08) -/
 
 def cntP (p : Int → Bool) (l : List Int) : Nat := (l.filter p).length
